@@ -19,7 +19,8 @@ EXPLANATION = (
     "as carried over (alarm cleared by the loss path), so what was requested on the new connection before its CONNACK is "
     "neither failed nor re-sent; Y-CARRY - that test is 'alarm is None', so the loss path must cancel and reset the alarm "
     "of every entry of each such registry on every path (no early exit from the loop, no skipped entry). NOT decided: the "
-    "release of held-back messages as the window allows.")
+    "release of held-back messages as the window allows. "
+    " Y-MARK - nothing but the loss path resets the alarm of an entry that stays registered (alarm is None is the carried-over mark); the refill's first transmission of a held-back request at the CONNACK is neither a failure nor a repeat.")
 ASSUMPTIONS = []
 
 PUB_REGS = ["queuePublishTx", "windowPublish", "windowPubRelease"]
@@ -164,6 +165,39 @@ def check(ctx):
                    msg="the CONNACK code recognises carried-over entries of %s by alarm is None, but the loss path does not %s the alarm of every "
                        "entry on every path (early exit from the loop, or a skipped entry): such a request is taken for one made on the new "
                        "connection and is never re-sent (persistent session) or purged (clean session)" % (reg, "cancel" if not okc else "reset to None"))
+        # Y-MARK: ... and nothing but the loss path may give an entry that stays in its registry that mark: a request of this very
+        # connection whose alarm is reset to None elsewhere is taken for a carried-over one by the next CONNACK
+        from ..handles import handles
+        hd = handles(a, cls)
+        ns = hd.none_stores()
+        for reg in sorted(carried_regs):
+            bad = []
+            for tr, e in ns.get(("win", reg, "alarm"), []):
+                if tr is None or tr.kind == "LOSS":
+                    continue
+                obj = e.a["obj"]
+                evs = tr.events
+                later = evs[evs.index(e) + 1:] if e in evs else []
+                if isinstance(obj, tuple) and obj and obj[0] == "new":
+                    continue       # the constructor's / the API's initial value, before the request is registered and sent
+                if any(x.kind == "UNREG" and x.a["reg"] == reg for x in evs):
+                    continue       # the entry leaves the registry
+                if any(x.kind == "SETATTR" and x.a["obj"] == obj and x.a["field"] == e.a["field"] and x.a["val"] != NONE for x in later):
+                    continue       # re-armed on the same path
+                bad.append((tr, e))
+            seen_m = set()
+            for tr, e in bad:
+                if (e.func, tr.kind) in seen_m:
+                    continue
+                seen_m.add((e.func, tr.kind))
+                ctx.ob("Y-MARK", "%s only the loss path marks an entry of %s as carried over (%s)" % (cq, reg, tr.label()), False, where=where(e),
+                       function=e.func, construct="%s/alarm-cleared-elsewhere/%s/%s" % (e.func, reg, tr.kind),
+                       msg="the alarm of an entry of %s is reset to None in context %s while the entry stays registered: alarm is None is what "
+                           "the CONNACK code takes for 'left behind by an earlier connection', so a request made on this connection is "
+                           "re-sent with DUP=1 by the resume or failed with MQTTSessionCleared by the purge" % (reg, tr.label()))
+            if not bad:
+                ctx.ob("Y-MARK", "%s only the loss path marks an entry of %s as carried over" % (cq, reg), True, where=cls.module.path,
+                       construct="%s/alarm-cleared-elsewhere/%s" % (cls.qual, reg), nontrivial=False)
         # resume / purge code only reachable from an accepted CONNACK (and the purge also from the loss path)
         for tr in contexts(cat):
             if tr in lc.connack_ok or tr.kind == "LOSS":
